@@ -74,20 +74,11 @@ Fixpoint dup_from (l : smap) (ops : list op) : bool :=
   end.
 Definition has_dup (ops : list op) : bool := dup_from [] ops.
 
-(* K-C26-emptyleaf: at some point of the run the leaf chain holds a non-empty leaf, later an
-   empty one, later a non-empty one (deletes emptied a leaf; nothing merges or unlinks it) *)
-Fixpoint gap_from (st : state) (ops : list op) : bool :=
-  match ops with
-  | [] => has_inner_empty_leaf st
-  | o :: t => has_inner_empty_leaf st || gap_from (fst (step st o)) t
-  end.
-Definition has_gap (ops : list op) : bool := gap_from create ops.
-
 (* K-C26-splitfit: some insert did not succeed (a split half does not fit its page) *)
 Definition res_failed (r : res) : bool := match r with RErr _ | RPanic => true | _ => false end.
 Definition has_failed_op (ops : list op) : bool := existsb res_failed (snd (run ops)).
 
-Definition known_class (ops : list op) : bool := has_dup ops || has_gap ops || has_failed_op ops.
+Definition known_class (ops : list op) : bool := has_dup ops || has_failed_op ops.
 
 (* full-tree scan as the callers do it *)
 Definition scan_all (st : state) : list cell + err := scan_from st [].
